@@ -143,11 +143,8 @@ def diff_expected(g, exp):
             ks = sorted(set(got) | set(want))
             out.append("atom %d: " % i + ", ".join("%s got %r want %r" % (k, got.get(k, "<absent>"), want.get(k, "<absent>"))
                                                   for k in ks if got.get(k, "<absent>") != want.get(k, "<absent>") or (k in got) != (k in want)))
-        if part != 0:
-            out.append("atom %d: partition %r" % (i, part))
-        winv = (want["atomic_number"], want.get("mass", 0), want.get("rad", 0))
-        if inv is not None and tuple(inv) != winv:
-            out.append("atom %d: invariant_code %r want %r" % (i, inv, winv))
+        # (`partition` and `invariant_code` are working attributes of the pipeline, not part of what a file states: a wrong
+        #  value shows up in the strings, which the falsifiers of C06 / C08 compare)
     gb = [(u, v, d.get("bond_type")) for u, v, d in ob["bonds"]]
     if gb != exp["bonds"]:
         out.append("bonds got %s want %s" % ([b for b in gb if b not in exp["bonds"]][:6], [b for b in exp["bonds"] if b not in gb][:6]))
@@ -1132,7 +1129,14 @@ def k3_graph(run, model, g, tag):
     line2 = text.split("\n")[1]
     ans = model.q("write " + hx(line2) + " " + enc_rmol(g))
     mt = unhx(ans[3:]) if ans.startswith("ok ") else ans
-    if mt != text:
+    # canonicalise before diffing: the three header lines are free text (program name, timestamp, comment) and a final
+    # newline is immaterial; the counts line and the connection table are compared character by character
+    def body(t):
+        ls = t.split("\n")
+        if ls and ls[-1] == "":
+            ls = ls[:-1]
+        return ls[3:]
+    if body(mt) != body(text) or not ans.startswith("ok "):
         il, ml = text.split("\n"), mt.split("\n")
         first = next((i for i, (a, b) in enumerate(zip(il, ml)) if a != b), min(len(il), len(ml)))
         c["diffs"].append({"what": "molfile text differs at line %d" % first, "tag": tag, "graph": graph_json(g),
@@ -1565,20 +1569,25 @@ def c08(run, model):
 
 # ===================================================================== C09
 def mini_read3000(text):
-    """Strict reader for the writer's dialect, independent of /repo: returns (problems, atoms, bonds, wrapped)
-    atoms: (index, symbol, x, y, z, props dict); bonds: (index, type, a, b); all numbers as written."""
+    """Reader for well-formed V3000 connection tables as a writer may produce them, independent of /repo: returns
+    (problems, atoms, bonds, wrapped). atoms: (index, symbol, x, y, z, props dict); bonds: (index, type, a, b); numbers as written.
+    Tolerated because the format allows it: a final newline, runs of blanks, further key=value keywords on atom and bond lines,
+    an atom-atom mapping number, further fields on the COUNTS line. Demanded: the 'M  V30 ' prefix on every CTAB line, the block
+    keywords, the line limit, well-formed continuation."""
     probs = []
     lines = text.split("\n")
+    if lines and lines[-1] == "":
+        lines = lines[:-1]                      # the text may end with a newline
     for i, l in enumerate(lines):
         if len(l) > 79:
             probs.append("line %d has %d characters plus the newline (limit 80 including the newline)" % (i + 1, len(l)))
-        if "\r" in l or l != l.rstrip("\n"):
-            probs.append("line %d contains a line-break character" % (i + 1))
+        if "\r" in l:
+            probs.append("line %d contains a carriage return" % (i + 1))
     if len(lines) < 9:
         return probs + ["fewer than 9 lines"], [], [], 0
-    if lines[3].split()[-1:] != ["V3000"] or len(lines[3]) != 39:
+    if lines[3].split()[-1:] != ["V3000"]:
         probs.append("counts line is not a V3000 counts line")
-    if lines[-1] != "M  END":
+    if lines[-1].rstrip(" ") != "M  END":
         probs.append("last line is not M  END")
     logical = []
     cur = None
@@ -1599,37 +1608,36 @@ def mini_read3000(text):
         probs.append("continuation dash on the last V30 line")
     atoms, bonds = [], []
     try:
-        if logical[0] != "BEGIN CTAB" or logical[-1] != "END CTAB":
+        toks = [l.split() for l in logical]
+        if toks[0][:2] != ["BEGIN", "CTAB"] or toks[-1] != ["END", "CTAB"]:
             probs.append("CTAB keywords missing")
-        c = logical[1].split(" ")
-        if c[0] != "COUNTS" or len(c) != 6:
+        c = toks[1]
+        if c[0] != "COUNTS" or len(c) < 3:
             probs.append("bad counts line %r" % logical[1])
         na, nb = int(c[1]), int(c[2])
-        if logical[2] != "BEGIN ATOM" or logical[3 + na] != "END ATOM":
+        if toks[2] != ["BEGIN", "ATOM"] or toks[3 + na] != ["END", "ATOM"]:
             probs.append("atom block keywords misplaced")
-        for l in logical[3:3 + na]:
-            t = l.split(" ")
-            if "" in t or t[5] != "0":
-                probs.append("atom line %r: empty token or aamap" % l)
+        for l, t in zip(logical[3:3 + na], toks[3:3 + na]):
+            int(t[5])                                       # atom-atom mapping number
             props = {}
             for kv in t[6:]:
-                key, val = kv.split("=")
-                if key in props or key not in ("CHG", "RAD", "MASS"):
-                    probs.append("atom line %r: property %s" % (l, key))
-                props[key] = int(val)
+                key, _, val = kv.partition("=")
+                if key in ("CHG", "RAD", "MASS"):
+                    if key in props:
+                        probs.append("atom line %r: property %s written twice" % (l, key))
+                    props[key] = int(val)
             atoms.append((int(t[0]), t[1], t[2], t[3], t[4], props))
-        rest = logical[4 + na:-1]
+        rest = toks[4 + na:-1]
         if nb == 0:
-            if rest:
+            if rest and rest != [["BEGIN", "BOND"], ["END", "BOND"]]:
                 probs.append("unexpected lines after the atom block: %r" % rest[:2])
         else:
-            if rest[0] != "BEGIN BOND" or rest[-1] != "END BOND" or len(rest) != nb + 2:
+            if rest[0] != ["BEGIN", "BOND"] or rest[-1] != ["END", "BOND"] or len(rest) != nb + 2:
                 probs.append("bond block malformed")
-            for l in rest[1:-1]:
-                t = l.split(" ")
-                if len(t) != 4:
-                    probs.append("bond line %r" % l)
-                bonds.append(tuple(int(x) for x in t))
+            for t in rest[1:-1]:
+                if len(t) < 4:
+                    probs.append("bond line %r" % " ".join(t))
+                bonds.append(tuple(int(x) for x in t[:4]))
     except (ValueError, IndexError) as e:
         probs.append("not well-formed: %s: %s" % (type(e).__name__, e))
     return probs, atoms, bonds, wrapped
@@ -1651,15 +1659,30 @@ def fals_c09_graph(g):
     else:
         for (ix, sym, x, y, z, props), (a, d) in zip(atoms, nodes):
             want = {k: v for k, v in (("CHG", d.get("chg")), ("RAD", d.get("rad")), ("MASS", d.get("mass"))) if v}
-            if ix != a + 1 or sym != d["element_symbol"] or props != want:
+            props = {k: v for k, v in props.items() if v != 0}      # an explicitly written default means "not set"
+            # atoms are written in the graph's order; which index numbers the file uses is the writer's choice
+            if sym != d["element_symbol"] or props != want:
                 probs.append("atom %r written as %r" % (a, (ix, sym, props)))
             for s, key in ((x, "x_coord"), (y, "y_coord"), (z, "z_coord")):
-                if not re.fullmatch(r"-?\d+\.\d{6}", s) or not close6(float(d.get(key, 0)), float(Fraction(s))):
+                # "to six decimals": the written value agrees with the attribute to 1e-6 (how many digits are written is the writer's choice)
+                if not re.fullmatch(r"[-+]?\d+(\.\d*)?", s) or not close6(float(d.get(key, 0)), float(Fraction(s))):
                     probs.append("atom %r %s %r written as %r" % (a, key, d.get(key, 0), s))
     edges = list(g.edges(data=True))
-    wantb = [(i, d.get("bond_type", 1), u + 1, v + 1) for i, (u, v, d) in enumerate(edges, 1)]
-    if bonds != wantb:
-        probs.append("bond lines %s, graph bonds %s" % ([b for b in bonds if b not in wantb][:3], [b for b in wantb if b not in bonds][:3]))
+    # the same bonds with the same types: as a set of {a, b} pairs (order of the bond lines, their numbering and the direction
+    # in which a bond is written are the writer's choice); atoms are identified by their position in the atom block
+    ixpos = {ix: i for i, (ix, *_rest) in enumerate(atoms)}
+    if len(ixpos) != len(atoms):
+        probs.append("atom index written twice")
+    try:
+        gotb = sorted((t, min(ixpos[a_], ixpos[b_]), max(ixpos[a_], ixpos[b_])) for _, t, a_, b_ in bonds)
+    except KeyError as e:
+        gotb = None
+        probs.append("bond line names an atom index that no atom line has: %s" % e)
+    wantb = sorted((d.get("bond_type", 1), min(pos[u], pos[v]), max(pos[u], pos[v])) for u, v, d in edges)
+    if gotb is not None and gotb != wantb:
+        probs.append("bond lines %s, graph bonds %s" % ([b for b in gotb if b not in wantb][:3], [b for b in wantb if b not in gotb][:3]))
+    if len(set(i for i, *_r in bonds)) != len(bonds):
+        probs.append("bond index written twice")
     # reading back with the implementation
     g2, err = read_graph(text)
     if err:
